@@ -93,6 +93,9 @@ def generate(prop, rng):
         "prop": prop, "cfg": cfg, "contents": [gen.enc(b) for b in pool],
         "prior": prior, "target": target, "lazy": lazy, "evict": evict, "prior_kinds": prior_kinds,
         "evict_dir": lazy is not None and rng.random() < 0.15,
+        # round 7: after a run with unavailable sources the store recovers (objects back) and compare/apply is
+        # repeated with the SAME in-memory target index: it has to converge now
+        "heal_retry": rng.random() < 0.6,
     }
 
 
@@ -378,6 +381,32 @@ def execute(sc, ctx):
                     ctx.violate("delete-off-removed", "outside-target:symlink", f"{rel} gone or replaced")
             elif outside and files.get(rel) != data:
                 ctx.violate("delete-off-removed", "outside-target", f"{rel} gone or changed")
+    if unavailable and sc.get("heal_retry") and cfg["delete"] and not ctx.seam.fired.get("ws_remove"):
+        # the store recovers: what the scenario evicted is back; same target index object, new compare/apply
+        ctx.probe("heal_retry")
+        for rel in sc.get("evict", []):
+            ci = target[rel][0]
+            w.raw_add("cache", "local", foid[ci], contents[ci])
+        if sc.get("evict_dir") and doid is not None:
+            w.raw_add("cache", "local", doid, dbytes)
+        ctx.clock.advance(10**9)
+        del errors[:]
+        try:
+            old3 = build_old()
+            diff3 = compare(old3, idx, delete=True, relink=bool(cfg.get("relink")))
+            apply(diff3, ws, w.localfs, onerror=onerror, state=state,
+                  links=list(cfg["links"]) if cfg.get("links_arg", True) else None, jobs=cfg["jobs"], update_meta=False)
+        except Exception as exc:  # noqa: BLE001
+            ctx.violate("heal-retry-raised", type(exc).__name__, repr(exc))
+        else:
+            files3 = model.files_of(model.snapshot(ws) or {})
+            bad = sorted(rel for rel in want if files3.get(rel) != want[rel])
+            if bad:
+                ctx.violate("heal-retry-not-converged", "dir" if sc.get("evict_dir") else "file",
+                            f"{bad} absent/wrong after the store recovered; errors={errors[:3]}")
+            extra3 = sorted(set(files3) - set(want))
+            if extra3:
+                ctx.violate("heal-retry-stale-file", "delete-on", f"{extra3}")
     ndel = len(diff.files_delete) + len(diff.dirs_delete)
     ncre = len(diff.files_create)
     ctx.nontrivial = (ndel >= 1 and ncre >= 1) or _kind_change_depth(sc) >= 1
